@@ -476,9 +476,13 @@ func (o *ObjectSchema) applySubObjectDefaultValues(propertyID string, property *
 	default:
 		return
 	}
+	// The value found here is a default shared by all calls (it lives in the default values of the parent
+	// object); it is copied, never extended in place.
 	data := map[string]any{}
-	if _, ok := rawData[propertyID]; ok {
-		data = rawData[propertyID].(map[string]any)
+	if existingData, ok := rawData[propertyID]; ok {
+		for k, v := range existingData.(map[string]any) {
+			data[k] = v
+		}
 	}
 	subObjectDefaults := subObject.GetDefaults()
 	for k, v := range subObjectDefaults {
